@@ -122,7 +122,8 @@ def run(ctx):
         ctx.sample({"kind": "smooth vector", **{k: vectors[0][k] for k in ("nf", "D", "E", "fw", "fd", "circular", "out")}})
     # leading dimensions + metamorphic shift commutation on the code, larger grids (24 directions, dyadic spacing 11.25 via 32 dirs)
     rng = np.random.RandomState(ctx.seed)
-    for nd, nf in ((24, 6), (32, 5), (8, 7)):
+    # (spacings 15, 11.25, 45 and the fractional 7.5, 5.625, 4.5, 2.5 degrees: a full circle whatever the spacing's fractional part)
+    for nd, nf in ((24, 6), (32, 5), (8, 7), (48, 4), (64, 4), (80, 3), (144, 3)):
         dirs = np.arange(nd) * (360.0 / nd)
         vals = rng.randint(0, 50, size=(2, 3, nf, nd)).astype(float)
         da = xr.DataArray(vals, coords={"time": [0, 1], "site": [0, 1, 2], "freq": np.linspace(0.05, 0.3, nf), "dir": dirs},
